@@ -273,3 +273,31 @@ def merge_counts(dst, src):
         if isinstance(v, (int, float)):
             dst[k] = dst.get(k, 0) + v
     return dst
+
+
+def ddmin_list(items, fails, max_runs=300):
+    """Delta-debugging over a list: drop chunks, then single elements, as long
+    as `fails(candidate)` stays true (same violation signature).  Used after
+    Hypothesis' own shrinker, whose final example may belong to another
+    signature than the one reported."""
+    cur = list(items)
+    runs = 0
+    n = 2
+    while len(cur) >= 2 and runs < max_runs:
+        chunk = max(1, len(cur) // n)
+        removed = False
+        for i in range(0, len(cur), chunk):
+            cand = cur[:i] + cur[i + chunk:]
+            if not cand:
+                continue
+            runs += 1
+            if fails(cand):
+                cur = cand
+                n = max(n - 1, 2)
+                removed = True
+                break
+        if not removed:
+            if chunk == 1:
+                break
+            n = min(len(cur), n * 2)
+    return cur
